@@ -30,7 +30,9 @@ type traceInfo struct {
 // genTrace runs one adversarial cluster execution and returns its events as ndjson lines.
 func genTrace(seed int64, kind int) ([][]byte, string, *cluster.Cluster, error) {
 	rng := rand.New(rand.NewSource(seed))
-	powersets := [][]int64{{10, 10, 10, 10}, {1, 1, 1, 1}, {3, 2, 2, 2}, {2, 1, 1, 1, 1}, {10, 10, 10, 10, 10, 10, 10}}
+	// totals in every residue class mod 3 (the 2/3 threshold rounds differently in each)
+	powersets := [][]int64{{10, 10, 10, 10}, {1, 1, 1, 1}, {3, 2, 2, 2}, {2, 1, 1, 1, 1}, {10, 10, 10, 10, 10, 10, 10},
+		{1, 1, 1, 1, 1}, {3, 3, 3, 2}, {1, 1, 1, 1, 1, 1, 1, 1}}
 	ps := powersets[rng.Intn(len(powersets))]
 	var byz []int
 	total := int64(0)
@@ -42,9 +44,11 @@ func genTrace(seed int64, kind int) ([][]byte, string, *cluster.Cluster, error) 
 		if 3*ps[i] < total {
 			byz = []int{i}
 		}
-		if len(ps) == 7 && len(byz) == 1 && rng.Intn(2) == 0 {
-			j := (byz[0] + 1 + rng.Intn(6)) % 7
-			byz = append(byz, j)
+		if len(ps) >= 7 && len(byz) == 1 && rng.Intn(2) == 0 {
+			j := (byz[0] + 1 + rng.Intn(len(ps)-1)) % len(ps)
+			if 3*(ps[byz[0]]+ps[j]) < total {
+				byz = append(byz, j)
+			}
 		}
 	}
 	cl, err := cluster.New(cluster.Options{N: len(ps), Powers: ps, Byz: byz})
